@@ -588,7 +588,15 @@ func redactPipelineStage(stage interface{}, redactFieldNames bool, keyPath []str
 		isSelectivelyRedactable := isRedactableFieldPatternInArray(s)
 		return redactArrayValues(s, redactFieldNames, inSearchStage, isSelectivelyRedactable, keyPath)
 	default:
-		return stage
+		if len(keyPath) == 0 {
+			// a bare scalar where a stage document is expected: nothing to walk
+			return stage
+		}
+		if str, ok := stage.(string); ok && len(str) > 0 && str[0] == '$' {
+			return stage
+		}
+		// a scalar operand of an operator that takes an array of expressions ($and, $or, ...)
+		return redactScalarValue(keyPath, stage, inSearchStage, false)
 	}
 }
 
